@@ -119,16 +119,17 @@ def intMax : Int := 2147483647
 def intMin : Int := -2147483648
 def clampInt (v : Int) : Int := if v < intMin then intMin else if intMax < v then intMax else v
 
+def streamIntUnsigned (neg : Bool) (s1 : Str) : Int :=
+  if (s1.takeWhile isDigit).isEmpty then 0
+  else clampInt (if neg then - (digitsVal (s1.takeWhile isDigit) : Int) else (digitsVal (s1.takeWhile isDigit) : Int))
+
 /-- `istringstream >> int`: sign, decimal digits; 0 when there is no digit; the nearest limit
 on overflow (C++11 `num_get`). -/
 def streamInt (s : Str) : Int :=
-  let (neg, s1) := match s with
-    | '-' :: r => (true, r)
-    | '+' :: r => (false, r)
-    | _ => (false, s)
-  let ds := s1.takeWhile isDigit
-  if ds.isEmpty then 0
-  else clampInt (if neg then - (digitsVal ds : Int) else (digitsVal ds : Int))
+  match s with
+  | '-' :: r => streamIntUnsigned true r
+  | '+' :: r => streamIntUnsigned false r
+  | _ => streamIntUnsigned false s
 
 /-- TextTools::toDouble (TextTools.cpp:229): `none` = Exception -/
 def toDouble (dec sci : Char) (s : Str) : Option Rat :=
